@@ -157,11 +157,12 @@ def powPR : PR → PR → PR
     | none => .bad
   | _, _ => .bad
 
-/-- `floor(lhs / rhs)`: followed for integer constants only -/
+/-- `lhs / rhs`: followed for integer constants only (fix recorded as `fixed:` in known_findings.json: clingo's division
+rounds towards zero, sympy's `floor(lhs / rhs)` rounds down) -/
 def divPR : PR → PR → PR
   | .poly a, .poly b =>
     match a.const?, b.const? with
-    | some x, some y => if y == 0 then .bad else .poly (Poly.const (Int.fdiv x y))
+    | some x, some y => if y == 0 then .bad else .poly (Poly.const (Int.tdiv x y))  -- fix: clingo rounds towards zero (was `floor`)
     | _, _ => .bad
   | _, _ => .bad
 
@@ -169,7 +170,7 @@ def divPR : PR → PR → PR
 def modPR : PR → PR → PR
   | .poly a, .poly b =>
     match a.const?, b.const? with
-    | some x, some y => if y == 0 then .bad else .poly (Poly.const (Int.fmod x y))
+    | some x, some y => if y == 0 then .bad else .poly (Poly.const (Int.tmod x y))  -- fix: sign of the dividend (was sympy's `Mod`)
     | _, _ => .bad
   | _, _ => .bad
 
@@ -441,7 +442,14 @@ def newMul (asts : List R) : Except String R :=
     | f :: fs =>
       let factor := leftAssoc .mul f fs
       match collector with
-      | .bagg l c lg fn es rg =>
+      | .bagg l c lg fn0 es rg =>
+        -- fix (known_findings.json `fixed:`): #sum+ ignores negative weights; a factor that may not be positive can only be
+        -- moved into weights that are non-negative numbers, and the result is a #sum
+        let posNum : Term → Bool := fun t => match t with | .sym (.num n) => n > 0 | _ => false
+        let nonnegW : BAggElem → Bool := fun e => match e.1 with | .sym (.num n) :: _ => n ≥ 0 | _ => false
+        if fn0 == .sump && !(f :: fs).all posNum && !es.all nonnegW then
+          throw "SympyApi: Cannot move a factor that may not be positive into the weights of #sum+"
+        let fn := if fn0 == .sump && !(f :: fs).all posNum then AggFun.sum else fn0
         let es' : List BAggElem := es.map fun (ts, cond) =>
           match ts with
           | [] => ([Term.bin .mul (.sym (.num 1)) factor], cond)
